@@ -248,7 +248,8 @@ type lockWorker struct {
 	inUnlock bool // inside Unlock, Delete not yet applied
 	calls   int
 	onDone  func() // for lockctx-shut
-}
+	downAtCall bool // the worker's provider had been shut down before this call was made
+	}
 
 // shutCtx runs fn the first time Done() is called
 type shutCtx struct {
@@ -390,6 +391,10 @@ func (lc *lockCase) settle(expectCas int) bool {
 						lc.ctx.R.Quiet("mon C04-acquired-means-held", fmt.Sprintf("worker %d: the call returned success, but its Locker's counter is %d (nothing is held)", w.idx, cn))
 						lc.ctx.R.Quiet("mon C01-acquired-means-held", fmt.Sprintf("worker %d: the call returned success, but its Locker's counter is %d (nothing is held)", w.idx, cn))
 						lc.failed = true
+					}
+					if w.downAtCall && w.kind != "unlock" {
+						// (whatever the select of the attempt picks: the token case may be ready together with the done case)
+						lc.ctx.R.Quiet("mon C04-after-shutdown-no-acquire", fmt.Sprintf("worker %d (%s): its provider had been shut down before the call was made, yet the attempt acquired the lock", w.idx, w.kind))
 					}
 					if w.kind == "lockctx-shut" {
 						lc.ctx.R.Quiet("mon C04-after-shutdown-no-acquire", fmt.Sprintf("worker %d: the provider was shut down while the attempt stood at the select of lockInternal (Shutdown had returned), yet the attempt went on and acquired the lock", w.idx))
@@ -651,6 +656,7 @@ func (lc *lockCase) perform(a action) {
 		w.calls++
 		w.kind = a.arg
 		w.running = true
+		w.downAtCall = lc.provDown[lc.pv[lc.lk[w.idx]]]
 		w.hasCtx = strings.HasPrefix(a.arg, "lockctx")
 		w.cancel = nil
 		if a.arg == "unlock" {
